@@ -1,5 +1,6 @@
 (* C10 - reserved feature bits are refused; enabled ones work (leaf functions). *)
-From PS Require Import Base MiscDefs SpecDefs MiscProofs.
+From PS Require Import Base MiscDefs SpecDefs MiscProofs ApiDefs SpecApi ApiLemmas RefineProofs ApiTheorems.
+From PS.Gen Require Import Consts Langs.
 Local Open Scope N_scope.
 
 (* the enabling call, for EVERY argument: the reserved mask becomes 15 xor (m land 7) whatever
@@ -23,3 +24,38 @@ Theorem C10_queries : (forall f m, get_features f m = N.land (N.land f m) 7) /\
   (forall f, f < 32 -> (if is_encrypted f then 1 else 0) = (f / 16) mod 2).
 Proof. exact (conj get_features_spec (conj make_features_spec is_encrypted_spec)). Qed.
 Print Assumptions C10_queries.
+
+(* ---- at the API, for every related state *)
+(* enabling: the return value, the new reserved mask, and the abstract mask replaced (not OR-ed) *)
+Theorem C10_enable_api : forall sgn cs a m, R cs a ->
+  outp (step sgn langs cs (OpEnable m)) = OutNum (popcount 3 (N.land m 7)) /\
+  st_reserved (stp (step sgn langs cs (OpEnable m))) = N.lxor 15 (N.land m 7) /\
+  R (stp (step sgn langs cs (OpEnable m))) (mkastate (as_deps a) (N.land m 7) (as_seeds a) (as_next a)).
+Proof. exact enable_effect. Qed.
+Print Assumptions C10_enable_api.
+
+(* creation is refused exactly when a requested user bit is not enabled (before anything is allocated) *)
+Theorem C10_create_gate : forall sgn cs a features rand clock ok, R cs a -> clock < 2 ^ 64 ->
+  outp (step sgn langs cs (OpCreate features rand clock ok)) =
+    if negb (spec_supported (as_mask a) (N.land features 7)) then OutStatus ST_UNSUPPORTED None None
+    else if negb ok then OutStatus ST_MEMORY None None
+    else OutStatus ST_OK (Some (st_next cs)) None.
+Proof. exact create_gate. Qed.
+Print Assumptions C10_create_gate.
+
+(* both decoders: the gate is the third test of finish_out (C09_tail), on the feature bits carried
+   by the phrase; polyseed_load: the third test of C06_precedence.  spec_supported is the rule: *)
+Theorem C10_rule : forall mask f, spec_supported mask f = (N.land f (N.lxor 15 (N.land mask 7)) =? 0).
+Proof. reflexivity. Qed.
+Print Assumptions C10_rule.
+
+(* every combination: which feature values pass under which enabled mask (8 x 32, computed) *)
+Example C10_table : forall mask f, mask < 8 -> f < 32 ->
+  spec_supported mask f = ((f mod 16) / 8 =? 0) && (N.land (f mod 8) (7 - mask) =? 0).
+Proof.
+  intros mask f Hm Hf.
+  assert (T : forallb (fun m => forallb (fun f => Bool.eqb (spec_supported m f) (((f mod 16) / 8 =? 0) && (N.land (f mod 8) (7 - m) =? 0)))
+                (GFProofs.range 32)) (GFProofs.range 8) = true) by (vm_compute; reflexivity).
+  rewrite forallb_forall in T. specialize (T mask (GFProofs.in_range 8 mask Hm)).
+  rewrite forallb_forall in T. specialize (T f (GFProofs.in_range 32 f Hf)). apply Bool.eqb_prop, T.
+Qed.
